@@ -69,7 +69,7 @@ CHECKS = {
                 'set_symbol_by_name/by_slot write exactly one slot or fail without change; insert_symbol gives a new name the next dense slot. '
                 'The import handlers: a cached or freshly loaded module yields EXACTLY get_exported_symbol_by_name(name) (a value iff exported, else an ImportError, also on the cache-hit path) or its import object; a loaded module enters the cache under its resolved path; '
                 'a compiled-but-not-run module is handed to a new fiber, the importer sleeps and re-executes the same instruction (ip rewound to the opcode); export errors surface as ExportError.'),
-    level_note=('Trusted: hashbrown map/set as mathematical map/set, UniqueVector as Vec (vx/units/module/prelude.rs), rewrites R4/R6. Not decided: import_module / load_missing_module (file system, compile) — the loader's answer is uninterpreted, so 'the body runs exactly once' is NOT concluded; path resolution (cache-key collisions), module_instance construction.'),
+    level_note=('Trusted: hashbrown map/set as mathematical map/set, UniqueVector as Vec (vx/units/module/prelude.rs), rewrites R4/R6. Not decided: import_module / load_missing_module (file system, compile) — the answer of the loader is uninterpreted, so that the body runs exactly once is NOT concluded; path resolution (cache-key collisions), module_instance construction.'),
   ),
   'C01': dict(
     engine='vx',
